@@ -22,7 +22,10 @@ MANIFEST = dict(
          "are stored under equivalent path conditions, the recompute guard is equivalent to 'a count is requested and differs from the cached key', "
          "setup runs (directly or through a method) before any use of the tables, nothing else writes them; (6) integrator formulas (affine map "
          "of the abscissae, weighted sum, prefactor, roles of the interpolation call) by symbolic normal forms; (7) symbolic shape and element "
-         "inference of the tensor-product grid for nx != ny (which weight sits at which grid point).",
+         "inference of the tensor-product grid for nx != ny (which weight sits at which grid point); (8) value preservation on the data path: "
+         "reaching definitions follow each input of the linear interpolation through array conversions to the segment search and the formula, "
+         "and every conversion there and in the integrators (which the symbolic evaluator reads as the identity) must be value preserving "
+         "for every input dtype (no narrowing, no rounding, no dtype borrowed from another array).",
     note="Not decided: Newton convergence for all n, exactness to degree 2n-1, agreement with an independent rule (numerical facts). "
          "Trusted: clang AST, numpy broadcasting/meshgrid semantics as modelled, sympy normaliser.",
     technique="static analysis: reaching definitions on a C CFG (zero-trip path rule), cross-copy sibling comparison, per-statement formula conformance, typestate/memo-key discipline, symbolic shape inference",
@@ -33,7 +36,7 @@ IU = "esutil.integrate.util."
 
 # rules that keep their verdict however the code is laid out (decided by term equality, effect analysis or dominance over
 # resolved calls); every other rule of this check is a template rule (vcheck.core.Check.obt)
-SEMANTIC = ('R17.1', 'R17.2', 'R17.3', 'R17.5', 'R17.5r', 'R17.7')
+SEMANTIC = ('R17.1', 'R17.2', 'R17.3', 'R17.5', 'R17.5r', 'R17.7', 'R17.8')
 
 
 def run(chk):
@@ -68,6 +71,7 @@ def run(chk):
     memo(chk, repo)
     cached_tables_readonly(chk, repo)
     integrators(chk, repo)
+    value_preservation(chk, repo)
     shapes(chk, repo)
 
 
@@ -1349,6 +1353,311 @@ def integrators(chk, repo):
     ref = xf1 * yf1 * SUM(sp.Function("func")(xg * xf1 + xf2, yg * yf1 + yf2) * wg)
     eq = isinstance(r, sp.Basic) and symx.equal(r, ref)[0]
     chk.ob("R17.6", "QGauss2.integrate_func::formula", bool(eq), fi.where(), "tensor-product sum with both affine maps and the product prefactor (found %s)" % r)
+
+
+# ---------------------------------------------------------------------------
+# R17.8: the data reach the segment search and the interpolation formula with their values unchanged
+# ---------------------------------------------------------------------------
+SU = "esutil.stat.util."
+
+# floating types that hold every value of the narrower numeric types (conversion to them keeps the values)
+_WIDE = {"float", "float64", "double", "float_", "longdouble", "longfloat", "float96", "float128", "f8", "d", "g", "f12", "f16"}
+# integer, boolean and short floating types: conversion of general floating data to them changes the values
+_NARROW = {"int", "bool", "int_", "intc", "intp", "int8", "int16", "int32", "int64", "uint", "uintc", "uintp", "uint8", "uint16", "uint32", "uint64",
+           "long", "longlong", "ulong", "ulonglong", "short", "ushort", "byte", "ubyte", "bool_", "float32", "float16", "single", "half",
+           "f4", "f2", "f", "e", "?", "l", "q", "h", "b", "B", "H", "I", "L", "Q", "p", "P", "i", "u"}
+_KEEP_FUNCS = {"array", "asarray", "asanyarray", "ascontiguousarray", "asfortranarray", "require", "atleast_1d", "copy", "ravel", "squeeze"}
+_DTYPE_POS = {"array": 1, "asarray": 1, "asanyarray": 1, "ascontiguousarray": 1, "asfortranarray": 1, "require": 1}
+_KEEP_METHODS = {"copy", "ravel", "flatten", "squeeze"}
+_ROUNDERS = {"floor", "ceil", "rint", "round", "round_", "around", "trunc", "fix"}
+_PROMOTERS = {"result_type", "promote_types", "common_type", "find_common_type"}
+
+
+class _Step:
+    """one array conversion on a data path: ok True (keeps every value), False (changes values for some input dtype), None (not decided)"""
+
+    def __init__(self, call, ok, why, dt=None):
+        self.call, self.ok, self.why, self.dt = call, ok, why, dt
+
+    def text(self):
+        return "`%s` %s" % (norm(self.call)[:90], self.why)
+
+
+class _Flow:
+    """where a value comes from, following single assignments backwards over reaching definitions and peeling array conversions:
+    origins(expr, node) -> [(parameter name or None, [conversion steps, outermost first])], one entry per reaching alternative"""
+
+    def __init__(self, repo, fi):
+        self.repo, self.fi = repo, fi
+        self.cfg = cfg_of(fi)
+        self.view = self.cfg.view()
+        self.IN, _ = self.view.reaching_defs()
+        self.params = [p for p in fi.params if not p.startswith("*")]
+        self.local_np = set()
+        for x in walk_no_nested(fi.node):
+            if isinstance(x, ast.ImportFrom) and x.module == "numpy":
+                self.local_np |= {al.asname or al.name for al in x.names}
+
+    # -- recognising conversions -------------------------------------------
+    def _numpy_func(self, call):
+        """rightmost name of the callee when it is a numpy function (np.f, numpy.f, or f imported from numpy), else None"""
+        d = dotted_name(call.func)
+        if d is None:
+            return None
+        full = self.repo.resolve_name(self.fi.module, d)
+        if full.startswith("numpy.") or (isinstance(call.func, ast.Name) and call.func.id in self.local_np):
+            return full.rsplit(".", 1)[-1]
+        return None
+
+    def conversion(self, e):
+        """(operand, kind, dtype expression) when the call converts an array: kind 'keep' (no type change requested), 'dtype' (to the
+        type given by the expression), 'wide' / 'narrow' (to a type named by the callee), 'round', 'unknown'; None for any other call"""
+        if not isinstance(e, ast.Call):
+            return None
+        f = e.func
+        nm = self._numpy_func(e)
+        if nm is not None and e.args:
+            if nm in _KEEP_FUNCS:
+                dt = kwarg(e, "dtype")
+                if dt is None and nm in _DTYPE_POS and len(e.args) > _DTYPE_POS[nm]:
+                    dt = e.args[_DTYPE_POS[nm]]
+                return (e.args[0], "keep" if dt is None or _is_none(dt) else "dtype", dt)
+            if nm in _ROUNDERS:
+                return (e.args[0], "round", None)
+            if nm in _WIDE and len(e.args) == 1:
+                return (e.args[0], "wide", None)
+            if nm in _NARROW and len(e.args) == 1:
+                return (e.args[0], "narrow", None)
+            return None
+        if isinstance(f, ast.Attribute) and nm is None:
+            if f.attr == "astype":
+                dt = e.args[0] if e.args else kwarg(e, "dtype")
+                return (f.value, "dtype" if dt is not None else "unknown", dt)
+            if f.attr in _KEEP_METHODS and not e.args and not e.keywords:
+                return (f.value, "keep", None)
+            if f.attr == "round":
+                return (f.value, "round", None)
+            if f.attr == "view":
+                return (f.value, "keep" if not e.args and not e.keywords else "unknown", None)
+            # <array>.dtype.type(value): the scalar / array constructor of another array's element type
+            if f.attr == "type" and isinstance(f.value, ast.Attribute) and f.value.attr == "dtype" and len(e.args) == 1:
+                return (e.args[0], "dtype", f.value)
+        return None
+
+    def dtype_class(self, dt, operand, own, node):
+        """(True: the type holds every value of the operand / False: it does not for some input / None, explanation)"""
+        if isinstance(dt, ast.Constant) and isinstance(dt.value, str):
+            s = dt.value.lstrip("<>=|")
+            if s in _WIDE:
+                return True, "to %r" % dt.value
+            if s in _NARROW or (s[:1] in "iub" and s[1:].isdigit()) or s.startswith(("int", "uint")):
+                return False, "narrows to %r" % dt.value
+            return None, "to %r" % dt.value
+        if isinstance(dt, ast.Call) and call_name(dt) == "dtype" and len(dt.args) == 1:
+            return self.dtype_class(dt.args[0], operand, own, node)
+        if isinstance(dt, ast.Call) and call_name(dt) in _PROMOTERS:
+            for a in dt.args:
+                a = a.value if isinstance(a, ast.Attribute) and a.attr == "dtype" else a
+                if norm(a) == norm(operand) or (own and {p for p, _ in self.origins(a, node)} == own):
+                    return True, "to a common type that includes its own"
+            return None, "to `%s`" % norm(dt)
+        if isinstance(dt, ast.Attribute) and dt.attr == "type" and isinstance(dt.value, ast.Attribute) and dt.value.attr == "dtype":
+            dt = dt.value
+        if isinstance(dt, ast.Attribute) and dt.attr == "dtype":
+            src = dt.value
+            if norm(src) == norm(operand):
+                return True, "to its own type"
+            alts = self.origins(src, node)
+            # the other array was itself converted to a stated type on every path: that type decides
+            stated = [next((s.dt for s in steps if s.dt is not None), None) for _, steps in alts]
+            if stated and all(s is True for s in stated):
+                return True, "to the type of `%s`, which is a wide floating type" % norm(src)
+            srcs = {p for p, _ in alts}
+            if own and None not in own and srcs == own and not any(s is False for s in stated):
+                return True, "to the type it arrived with"
+            return False, "converts to the element type of a different array (`%s`): when that array is integer-typed (or of a shorter floating type) the values are truncated" % norm(src)
+        d = dotted_name(dt)
+        if d is not None:
+            last = d.rsplit(".", 1)[-1]
+            if last in _WIDE:
+                return True, "to %s" % d
+            if last in _NARROW:
+                return False, "narrows to %s" % d
+        return None, "to `%s`" % norm(dt)
+
+    def step(self, call, node, alts_of_operand=None):
+        c = self.conversion(call)
+        if c is None:
+            return None
+        operand, kind, dt = c
+        if kind == "keep":
+            return _Step(call, True, "keeps the values")
+        if kind == "wide":
+            return _Step(call, True, "widens", True)
+        if kind == "narrow":
+            return _Step(call, False, "narrows the values to the type `%s`" % call_name(call), False)
+        if kind == "round":
+            return _Step(call, False, "rounds the values")
+        if kind == "unknown":
+            return _Step(call, None, "converts to a type that was not determined")
+        own = {p for p, _ in (alts_of_operand if alts_of_operand is not None else self.origins(operand, node))}
+        ok, why = self.dtype_class(dt, operand, own, node)
+        return _Step(call, ok, why, ok)
+
+    # -- following values backwards ------------------------------------------
+    def origins(self, e, node, seen=frozenset(), depth=0):
+        if depth > 12:
+            return [(None, [])]
+        if isinstance(e, ast.Name) and isinstance(e.ctx, ast.Load):
+            defs = self.IN.get(node.id, {}).get(e.id)
+            if not defs:
+                return [(None, [])]
+            out = []
+            for d in sorted(defs):
+                if d == self.cfg.entry.id:
+                    out.append((e.id if e.id in self.params else None, []))
+                    continue
+                if (d, e.id) in seen:
+                    out.append((None, []))
+                    continue
+                dn = self.cfg.node(d)
+                a = dn.ast
+                val = None
+                if dn.kind == "stmt" and isinstance(a, ast.Assign) and len(a.targets) == 1 and isinstance(a.targets[0], ast.Name) and a.targets[0].id == e.id:
+                    val = a.value
+                elif dn.kind == "stmt" and isinstance(a, ast.AnnAssign) and isinstance(a.target, ast.Name) and a.target.id == e.id and a.value is not None:
+                    val = a.value
+                if val is None:
+                    out.append((None, []))
+                else:
+                    out += self.origins(val, dn, seen | {(d, e.id)}, depth + 1)
+            return out
+        if isinstance(e, ast.IfExp):
+            return self.origins(e.body, node, seen, depth + 1) + self.origins(e.orelse, node, seen, depth + 1)
+        c = self.conversion(e)
+        if c is not None:
+            inner = self.origins(c[0], node, seen, depth + 1)
+            st = self.step(e, node, inner)
+            return [(p, [st] + steps) for p, steps in inner]
+        return [(None, [])]
+
+    def conversions(self):
+        """(cfg node, call) of every array conversion in the function"""
+        out = []
+        for n in self.cfg.nodes:
+            for c in stmts_calls_of(n):
+                if self.conversion(c) is not None:
+                    out.append((n, c))
+        return out
+
+
+def stmts_calls_of(n):
+    from vcheck.cfg import stmts_calls
+    return stmts_calls(n)
+
+
+def _search_calls(flow):
+    """(cfg node, call, table expression, query expression) of the sorted-table searches: t.searchsorted(q), np.searchsorted(t, q),
+    np.digitize(q, t)"""
+    out = []
+    for n in flow.cfg.nodes:
+        for c in stmts_calls_of(n):
+            nm = call_name(c)
+            if nm not in ("searchsorted", "digitize"):
+                continue
+            is_np = flow._numpy_func(c) is not None
+            if nm == "searchsorted" and is_np:
+                t = c.args[0] if c.args else kwarg(c, "a")
+                q = c.args[1] if len(c.args) > 1 else kwarg(c, "v")
+            elif nm == "searchsorted" and isinstance(c.func, ast.Attribute):
+                t = c.func.value
+                q = c.args[0] if c.args else kwarg(c, "v")
+            elif nm == "digitize" and is_np:
+                q = c.args[0] if c.args else kwarg(c, "x")
+                t = c.args[1] if len(c.args) > 1 else kwarg(c, "bins")
+            else:
+                continue
+            out.append((n, c, t, q))
+    return out
+
+
+def _path_verdict(alts, want):
+    """verdict on one data path: (ok, lossy steps, text).  False: some reaching alternative passes a value-changing conversion, or the
+    value positively is another input; True: every alternative is the wanted input through value-keeping conversions; else None"""
+    lossy = [s for _, steps in alts for s in steps if s.ok is False]
+    if lossy:
+        return False, lossy
+    srcs = {p for p, _ in alts}
+    if None in srcs or any(s.ok is None for _, steps in alts for s in steps):
+        return None, []
+    if srcs == {want}:
+        return True, []
+    return False, []
+
+
+def value_preservation(chk, repo):
+    """R17.8: 'the weighted sum of the linearly interpolated values' is a statement about the data as given.  Necessary: (a) the search
+    that picks the bracketing segment compares the given query points with the given abscissa table (for both, only conversions that
+    keep every value for every input dtype may lie between the parameter and the search); (b) no input of the interpolation is passed
+    through a narrowing / rounding conversion or converted to the element type of another array; (c) the same for every conversion in
+    the integrators -- the symbolic evaluator behind R17.6 reads astype / asarray(dtype=) / float32() as the identity, which is only
+    right for value-keeping conversions."""
+    fi = repo.func(SU + "interplin")
+    chk.analysed_unit(fi.qualname)
+    flow = _Flow(repo, fi)
+    roles = dict(zip(flow.params, ("values", "abscissa table", "query points")))
+    if len(flow.params) != 3:
+        chk.ob("R17.8", "interplin::segment-search-on-given-values", None, fi.where(), "interplin does not take (values, abscissae, query points)")
+        return
+    p_tab, p_qry = flow.params[1], flow.params[2]
+    searches = _search_calls(flow)
+    verdicts = []
+    msgs = []
+    where = fi.where()
+    for n, c, t, q in searches:
+        for e, want in ((t, p_tab), (q, p_qry)):
+            if e is None:
+                verdicts.append(None)
+                continue
+            alts = flow.origins(e, n)
+            ok, lossy = _path_verdict(alts, want)
+            verdicts.append(ok)
+            if ok is False:
+                where = fi.where(c)
+                if lossy:
+                    msgs.append("the %s reach `%s` through %s" % (roles[want], norm(c)[:80], "; ".join(s.text() for s in lossy)))
+                else:
+                    msgs.append("`%s` in `%s` is the input `%s`, not the %s" % (norm(e)[:40], norm(c)[:80], "/".join(sorted(p for p, _ in alts)), roles[want]))
+    ok = None if not searches else (False if any(v is False for v in verdicts) else (None if any(v is None for v in verdicts) else True))
+    chk.ob("R17.8", "interplin::segment-search-on-given-values", ok, where,
+           "the bracketing segment is found by searching the abscissa table as given for the query points as given (only value-keeping array conversions in between)%s"
+           % ("" if ok else (": " + "; ".join(msgs) + " -- the segment is then chosen for other abscissae than the ones interpolated to, so the result is extrapolated from a neighbouring segment"
+                            if msgs else ": %d searches found, operands not traced to the inputs" % len(searches))))
+    # (b) every conversion applied to an input of the interpolation
+    per = {p: [] for p in flow.params}
+    for n, c in flow.conversions():
+        alts = flow.origins(c, n)
+        srcs = {p for p, _ in alts}
+        if len(srcs) == 1 and None not in srcs:
+            per[srcs.pop()] += [s for _, steps in alts for s in steps]
+    for p in flow.params:
+        lossy = [s for s in per[p] if s.ok is False]
+        undecided = [s for s in per[p] if s.ok is None]
+        ok = False if lossy else (None if undecided else True)
+        chk.ob("R17.8", "interplin::input-values-kept::%s" % roles[p], ok, fi.where(lossy[0].call) if lossy else fi.where(),
+               "the %s are only passed through conversions that keep every value whatever the input dtypes (%d conversions)%s"
+               % (roles[p], len(per[p]), "" if not (lossy or undecided) else ": " + "; ".join(s.text() for s in (lossy or undecided)[:3])))
+    # (c) conversions inside the integrators
+    for q in ("QGauss.integrate_func", "QGauss.integrate_data", "QGauss2.integrate_func"):
+        f = repo.func(IU + q)
+        fl = _Flow(repo, f)
+        steps = [fl.step(c, n) for n, c in fl.conversions()]
+        lossy = [s for s in steps if s.ok is False]
+        undecided = [s for s in steps if s.ok is None]
+        ok = False if lossy else (None if undecided else True)
+        chk.ob("R17.8", "%s::conversions-keep-values" % q, ok, f.where(lossy[0].call) if lossy else f.where(),
+               "every array conversion on the way from the arguments to the weighted sum keeps the values (%d conversions)%s"
+               % (len(steps), "" if not (lossy or undecided) else ": " + "; ".join(s.text() for s in (lossy or undecided)[:3])))
 
 
 class _Arr:
